@@ -24,6 +24,11 @@ type FOutcome struct {
 }
 
 func (c *Ctx) runFuncBatches(items []pgen.FItem, batch int, race bool, n int) []*FOutcome {
+	return c.runFuncBatchesOpt(items, batch, race, n, false)
+}
+
+// runFuncBatchesOpt: with buildOnly the emitted code is only compiled (C01).
+func (c *Ctx) runFuncBatchesOpt(items []pgen.FItem, batch int, race bool, n int, buildOnly bool) []*FOutcome {
 	var batches [][]pgen.FItem
 	for len(items) > 0 {
 		k := batch
@@ -34,7 +39,9 @@ func (c *Ctx) runFuncBatches(items []pgen.FItem, batch int, race bool, n int) []
 		items = items[k:]
 	}
 	res := make([][]*FOutcome, len(batches))
-	parallel(len(batches), 6, func(i int) { res[i] = c.runFuncBatch(fmt.Sprintf("%s-f%02d", strings.ToLower(c.Prop), i), batches[i], race, n) })
+	parallel(len(batches), 6, func(i int) {
+		res[i] = c.runFuncBatch(fmt.Sprintf("%s-f%02d", strings.ToLower(c.Prop), i), batches[i], race, n, buildOnly)
+	})
 	var out []*FOutcome
 	for _, r := range res {
 		out = append(out, r...)
@@ -42,19 +49,31 @@ func (c *Ctx) runFuncBatches(items []pgen.FItem, batch int, race bool, n int) []
 	return out
 }
 
-func (c *Ctx) runFuncBatch(name string, items []pgen.FItem, race bool, n int) []*FOutcome {
+func (c *Ctx) runFuncBatch(name string, items []pgen.FItem, race bool, n int, buildOnly bool) []*FOutcome {
 	dir := c.Env.Dir(name)
 	grun.WriteTree(dir, pgen.RenderFuncPackage(items))
 	WriteMon(dir)
 	fail := func(stage, stderr string) []*FOutcome {
 		if len(items) > 1 && atomicAdd(&c.isolations, 1) <= 60 {
 			subs := make([][]*FOutcome, len(items))
-			parallel(len(items), 4, func(i int) { subs[i] = c.runFuncBatch(fmt.Sprintf("%s-s%d", name, i), items[i:i+1], race, n) })
-			os.RemoveAll(dir)
+			parallel(len(items), 4, func(i int) { subs[i] = c.runFuncBatch(fmt.Sprintf("%s-s%d", name, i), items[i:i+1], race, n, buildOnly) })
 			var out []*FOutcome
+			anyFail := false
 			for _, s := range subs {
 				out = append(out, s...)
+				for _, x := range s {
+					if x.Stage != "ok" {
+						anyFail = true
+					}
+				}
 			}
+			if !anyFail {
+				it := items[0]
+				it.Tags = append(append([]string{}, it.Tags...), "combination-of-items")
+				out = append(out, &FOutcome{Item: &it, Stage: stage, Stderr: "only in combination with the other items of the batch (each item alone is fine):\n" + stderr, Dir: dir})
+				return out
+			}
+			os.RemoveAll(dir)
 			return out
 		}
 		var out []*FOutcome
@@ -66,6 +85,16 @@ func (c *Ctx) runFuncBatch(name string, items []pgen.FItem, race bool, n int) []
 	g := c.Goderive(dir, []string{"./p"})
 	if g.Exit != 0 || g.Crash != "" || g.TimedOut {
 		return fail("generate", g.Stderr)
+	}
+	if buildOnly {
+		if bl := c.Go(dir, "build", "./p"); bl.Exit != 0 {
+			return fail("compile", bl.Stderr+bl.Stdout)
+		}
+		var out []*FOutcome
+		for i := range items {
+			out = append(out, &FOutcome{Item: &items[i], Stage: "ok", Dir: dir, Res: &ItemResult{ID: items[i].ID}})
+		}
+		return out
 	}
 	args := []string{"build"}
 	if race {
